@@ -1,0 +1,544 @@
+//! Verification hooks (cargo feature `verif`).
+//!
+//! Type-conversion wrappers only: they expose crate-private types and functions to the external
+//! verification harness in plain-data form (tuples, byte vectors, integers). No database logic
+//! lives here. With the feature off this module is not compiled.
+#![allow(missing_docs, missing_debug_implementations)]
+use std::path::Path;
+use std::sync::Arc;
+
+use crate::fs::FileSystem;
+use crate::logs::{LogReader, LogWriter};
+
+pub struct VLogWriter(LogWriter);
+pub struct VLogReader(LogReader);
+
+impl VLogWriter {
+    pub fn new(fs: Arc<dyn FileSystem>, path: &Path, is_appending: bool) -> Result<Self, ()> {
+        LogWriter::new(fs, path, is_appending).map(VLogWriter).map_err(|_| ())
+    }
+    pub fn append(&mut self, data: &[u8]) -> Result<(), ()> {
+        self.0.append(data).map_err(|_| ())
+    }
+}
+
+impl VLogReader {
+    pub fn new(fs: Arc<dyn FileSystem>, path: &Path) -> Result<Self, ()> {
+        LogReader::new(fs, path, 0).map(VLogReader).map_err(|_| ())
+    }
+    pub fn read_record(&mut self) -> Result<(Vec<u8>, bool), ()> {
+        self.0.read_record().map_err(|_| ())
+    }
+}
+
+use crate::key::{InternalKey, Operation, RainDbKeyType};
+use crate::utils::bytes::BinarySeparable;
+use crate::versioning::file_metadata::FileMetadata;
+
+pub fn op(b: bool) -> Operation {
+    if b { Operation::Put } else { Operation::Delete }
+}
+
+/// (smallest user key, seq), (largest user key, seq) per file.
+pub fn key_range_for_files(files: &[((Vec<u8>, u64), (Vec<u8>, u64))]) -> ((Vec<u8>, u64), (Vec<u8>, u64)) {
+    let mut v: Vec<Arc<FileMetadata>> = Vec::new();
+    for (i, (s, l)) in files.iter().enumerate() {
+        let mut f = FileMetadata::new(i as u64 + 1);
+        f.set_smallest_key(Some(InternalKey::new(s.0.clone(), s.1, Operation::Put)));
+        f.set_largest_key(Some(InternalKey::new(l.0.clone(), l.1, Operation::Put)));
+        v.push(Arc::new(f));
+    }
+    let r = FileMetadata::get_key_range_for_files(&v);
+    let out = (
+        (r.start.get_user_key().to_vec(), r.start.get_sequence_number()),
+        (r.end.get_user_key().to_vec(), r.end.get_sequence_number()),
+    );
+    core::mem::forget(v);
+    out
+}
+
+pub fn ikey_cmp(a: (&[u8], u64, bool), b: (&[u8], u64, bool)) -> std::cmp::Ordering {
+    let ka = InternalKey::new(a.0.to_vec(), a.1, op(a.2));
+    let kb = InternalKey::new(b.0.to_vec(), b.1, op(b.2));
+    ka.cmp(&kb)
+}
+
+/// Returns (user_key, seq) of the separator.
+pub fn ikey_separator(a: (&[u8], u64, bool), b: (&[u8], u64, bool)) -> (Vec<u8>, u64) {
+    let ka = InternalKey::new(a.0.to_vec(), a.1, op(a.2));
+    let kb = InternalKey::new(b.0.to_vec(), b.1, op(b.2));
+    let sep = BinarySeparable::find_shortest_separator(&ka, &kb);
+    let k = InternalKey::try_from(sep).unwrap();
+    (k.get_user_key().to_vec(), k.get_sequence_number())
+}
+
+use crate::versioning::VersionChangeManifest;
+use crate::versioning::version::Version;
+use crate::table_cache::TableCache;
+use crate::DbOptions;
+
+/// Serialize then parse a manifest with one added file and one deleted file. Returns parsed fields.
+pub fn manifest_roundtrip(
+    wal: u64,
+    level: usize,
+    num: u64,
+    size: u64,
+    s: (&[u8], u64),
+    l: (&[u8], u64),
+    del: (usize, u64),
+) -> Option<(Option<u64>, usize, u64, u64, (Vec<u8>, u64), (Vec<u8>, u64), usize)> {
+    let mut m = VersionChangeManifest::default();
+    m.wal_file_number = Some(wal);
+    m.add_file(level, num, size, InternalKey::new(s.0.to_vec(), s.1, Operation::Put)..InternalKey::new(l.0.to_vec(), l.1, Operation::Put));
+    m.remove_file(del.0, del.1);
+    let bytes: Vec<u8> = Vec::from(&m);
+    let r = match VersionChangeManifest::try_from(bytes.as_slice()) {
+        Ok(p) => {
+            let (lv, f) = &p.new_files[0];
+            Some((
+                p.wal_file_number,
+                *lv,
+                f.file_number(),
+                f.get_file_size(),
+                (f.smallest_key().get_user_key().to_vec(), f.smallest_key().get_sequence_number()),
+                (f.largest_key().get_user_key().to_vec(), f.largest_key().get_sequence_number()),
+                p.deleted_files.len(),
+            ))
+        }
+        Err(_) => None,
+    };
+    core::mem::forget(m);
+    core::mem::forget(bytes);
+    r
+}
+
+/// Build a version with the given level-0 files (user key ranges) and return the indexes of overlapping inputs.
+pub fn overlapping_inputs_l0(options: DbOptions, files: &[(u8, u8)], begin: u8, end: u8) -> Vec<u64> {
+    let tc = Arc::new(TableCache::new(options.clone(), 2));
+    let mut v = Version::new(options, &tc, 0, 0);
+    for (i, (s, l)) in files.iter().enumerate() {
+        let mut f = FileMetadata::new(i as u64);
+        f.set_smallest_key(Some(InternalKey::new(vec![*s], 5, Operation::Put)));
+        f.set_largest_key(Some(InternalKey::new(vec![*l], 5, Operation::Put)));
+        v.files[0].push(Arc::new(f));
+    }
+    let b = InternalKey::new(vec![begin], 5, Operation::Put);
+    let e = InternalKey::new(vec![end], 5, Operation::Put);
+    let out: Vec<u64> = v
+        .get_overlapping_compaction_inputs(0, Some(&b)..Some(&e))
+        .iter()
+        .map(|f| f.file_number())
+        .collect();
+    core::mem::forget(v);
+    core::mem::forget(tc);
+    out
+}
+
+use crate::tables::block::DataBlockReader;
+use crate::tables::BlockCacheKey;
+use crate::utils::cache::{Cache, CacheEntry};
+
+#[derive(Debug)]
+struct NoCache;
+impl Cache<BlockCacheKey, Arc<DataBlockReader>> for NoCache {
+    fn insert(&self, _k: BlockCacheKey, _v: Arc<DataBlockReader>) -> Box<dyn CacheEntry<Arc<DataBlockReader>>> {
+        unreachable!()
+    }
+    fn get(&self, _k: &BlockCacheKey) -> Option<Box<dyn CacheEntry<Arc<DataBlockReader>>>> {
+        None
+    }
+    fn remove(&self, _k: &BlockCacheKey) {}
+    fn new_id(&self) -> u64 {
+        0
+    }
+}
+
+pub fn options_with(fs: Arc<dyn FileSystem>, block: usize) -> DbOptions {
+    DbOptions {
+        db_path: String::new(),
+        max_memtable_size: 64,
+        max_file_size: 64,
+        max_block_size: block,
+        filesystem_provider: fs,
+        filter_policy: Arc::new(crate::BloomFilterPolicy::new(10)),
+        block_cache: Arc::new(NoCache),
+        create_if_missing: true,
+        error_if_exists: false,
+        reuse_log_files: true,
+    }
+}
+
+
+use crate::db::GuardedDbFields;
+use crate::versioning::VersionSet;
+
+/// Create a version set on `options`, log_and_apply a manifest adding one L1 file, then
+/// log_and_apply a second edit; returns results of both calls.
+pub fn vset_log_and_apply(options: DbOptions, s: (u8, u64), l: (u8, u64)) -> (bool, bool, Vec<((u8, u64), (u8, u64))>) {
+    let tc = Arc::new(TableCache::new(options.clone(), 2));
+    let vs = VersionSet::new(options.clone(), Arc::clone(&tc));
+    let guarded = parking_lot::Mutex::new(GuardedDbFields::new_for_verif(vs));
+    let mut g = guarded.lock();
+    let mut m = VersionChangeManifest::default();
+    m.add_file(1, 7, 100, InternalKey::new(vec![s.0], s.1, Operation::Put)..InternalKey::new(vec![l.0], l.1, Operation::Put));
+    let r1 = VersionSet::log_and_apply(&mut g, &mut m).is_ok();
+    // second manifest file => snapshot written
+    g.version_set_drop_manifest_for_verif();
+    let mut m2 = VersionChangeManifest::default();
+    let r2 = VersionSet::log_and_apply(&mut g, &mut m2).is_ok();
+    // recover into a fresh version set
+    let tc2 = Arc::new(TableCache::new(options.clone(), 2));
+    let mut vs2 = VersionSet::new(options.clone(), Arc::clone(&tc2));
+    let mut out = vec![];
+    if vs2.recover().is_ok() {
+        let cur = vs2.get_current_version();
+        for f in cur.read().element.files[1].iter() {
+            out.push((
+                (f.smallest_key().get_user_key()[0], f.smallest_key().get_sequence_number()),
+                (f.largest_key().get_user_key()[0], f.largest_key().get_sequence_number()),
+            ));
+        }
+        core::mem::forget(cur);
+    }
+    core::mem::forget(vs2);
+    core::mem::forget(tc2);
+    core::mem::forget(g);
+    core::mem::forget(guarded);
+    core::mem::forget(tc);
+    (r1, r2, out)
+}
+
+pub fn open_db(options: DbOptions) -> Option<crate::DB> {
+    crate::DB::open(options).ok()
+}
+
+use crate::tables::{Table, TableBuilder};
+use crate::ReadOptions;
+
+/// Build a table file (number 1) from entries (user_key, seq, is_put, value).
+pub fn table_build(options: &DbOptions, entries: &[(&[u8], u64, bool, &[u8])]) -> bool {
+    let mut b = match TableBuilder::new(options.clone(), 1) {
+        Ok(b) => b,
+        Err(_) => return false,
+    };
+    for e in entries {
+        let k = InternalKey::new(e.0.to_vec(), e.1, op(e.2));
+        if b.add_entry(std::rc::Rc::new(k), e.3).is_err() {
+            return false;
+        }
+    }
+    let ok = b.finalize().is_ok();
+    core::mem::forget(b);
+    ok
+}
+
+/// 0 = value found (returned), 1 = deleted, 2 = not in this file, 3 = error
+pub fn table_get(options: &DbOptions, user_key: &[u8], seq: u64) -> (u8, Vec<u8>) {
+    let path = crate::file_names::FileNameHandler::new(options.db_path().to_string()).get_table_file_path(1);
+    let file = match options.filesystem_provider().open_file(&path) {
+        Ok(f) => f,
+        Err(_) => return (3, vec![]),
+    };
+    let table = match Table::open(options.clone(), file) {
+        Ok(t) => t,
+        Err(_) => return (3, vec![]),
+    };
+    let r = table.get(&ReadOptions { fill_cache: false, snapshot: None }, &InternalKey::new_for_seeking(user_key.to_vec(), seq));
+    let out = match r {
+        Ok(Some(v)) => (0, v),
+        Ok(None) => (1, vec![]),
+        Err(crate::tables::errors::ReadError::KeyNotFound) => (2, vec![]),
+        Err(_) => (3, vec![]),
+    };
+    core::mem::forget(table);
+    out
+}
+
+use crate::errors::RainDBError;
+use crate::iterator::RainDbIterator;
+use crate::versioning::file_iterators::MergingIterator;
+
+/// In-memory iterator over sorted internal entries.
+pub struct VecIter {
+    entries: Vec<(InternalKey, Vec<u8>)>,
+    pos: usize,
+}
+impl VecIter {
+    pub fn new(entries: &[(u8, u64, bool)]) -> Self {
+        let mut v = Vec::new();
+        for e in entries {
+            v.push((InternalKey::new(vec![e.0], e.1, op(e.2)), vec![e.0]));
+        }
+        let pos = v.len();
+        VecIter { entries: v, pos }
+    }
+}
+impl RainDbIterator for VecIter {
+    type Key = InternalKey;
+    type Error = RainDBError;
+    fn is_valid(&self) -> bool {
+        self.pos < self.entries.len()
+    }
+    fn seek(&mut self, target: &InternalKey) -> Result<(), RainDBError> {
+        let mut i = 0;
+        while i < self.entries.len() && &self.entries[i].0 < target {
+            i += 1;
+        }
+        self.pos = i;
+        Ok(())
+    }
+    fn seek_to_first(&mut self) -> Result<(), RainDBError> {
+        self.pos = 0;
+        Ok(())
+    }
+    fn seek_to_last(&mut self) -> Result<(), RainDBError> {
+        self.pos = if self.entries.is_empty() { 0 } else { self.entries.len() - 1 };
+        Ok(())
+    }
+    fn next(&mut self) -> Option<(&InternalKey, &Vec<u8>)> {
+        if self.pos < self.entries.len() {
+            self.pos += 1;
+        }
+        self.current()
+    }
+    fn prev(&mut self) -> Option<(&InternalKey, &Vec<u8>)> {
+        if self.pos == 0 || self.pos >= self.entries.len() {
+            self.pos = self.entries.len();
+        } else {
+            self.pos -= 1;
+        }
+        self.current()
+    }
+    fn current(&self) -> Option<(&InternalKey, &Vec<u8>)> {
+        if self.pos < self.entries.len() {
+            Some((&self.entries[self.pos].0, &self.entries[self.pos].1))
+        } else {
+            None
+        }
+    }
+}
+
+pub struct VMerge(MergingIterator);
+impl VMerge {
+    pub fn new(children: Vec<VecIter>) -> Self {
+        let mut v: Vec<Box<dyn RainDbIterator<Key = InternalKey, Error = RainDBError>>> = Vec::new();
+        for c in children {
+            v.push(Box::new(c));
+        }
+        VMerge(MergingIterator::new(v))
+    }
+    pub fn seek(&mut self, k: u8, s: u64) {
+        let _ = self.0.seek(&InternalKey::new_for_seeking(vec![k], s));
+    }
+    pub fn first(&mut self) {
+        let _ = self.0.seek_to_first();
+    }
+    pub fn last(&mut self) {
+        let _ = self.0.seek_to_last();
+    }
+    pub fn next(&mut self) {
+        self.0.next();
+    }
+    pub fn prev(&mut self) {
+        self.0.prev();
+    }
+    pub fn current(&self) -> Option<(u8, u64)> {
+        if !self.0.is_valid() {
+            return None;
+        }
+        self.0.current().map(|(k, _)| (k.get_user_key()[0], k.get_sequence_number()))
+    }
+}
+
+use crate::compaction::manifest::CompactionManifest;
+use crate::utils::linked_list::Node;
+
+fn mkfile(num: u64, r: &(u8, u64, u8, u64)) -> Arc<FileMetadata> {
+    let mut f = FileMetadata::new(num);
+    f.set_smallest_key(Some(InternalKey::new(vec![r.0], r.1, Operation::Put)));
+    f.set_largest_key(Some(InternalKey::new(vec![r.2], r.3, Operation::Put)));
+    Arc::new(f)
+}
+
+/// Level-0 compaction of *all* L0 files (like a manual compaction with an open range).
+/// Files are numbered 10+i at L0, 20+i at L1, 30+i at L2. Returns (inputs0, inputs1, grandparents).
+pub fn compaction_inputs_l0(
+    options: DbOptions,
+    l0: &[(u8, u64, u8, u64)],
+    l1: &[(u8, u64, u8, u64)],
+    l2: &[(u8, u64, u8, u64)],
+) -> (Vec<u64>, Vec<u64>) {
+    let tc = Arc::new(TableCache::new(options.clone(), 2));
+    let mut v = Version::new(options.clone(), &tc, 0, 0);
+    for (i, r) in l0.iter().enumerate() {
+        v.files[0].push(mkfile(10 + i as u64, r));
+    }
+    for (i, r) in l1.iter().enumerate() {
+        v.files[1].push(mkfile(20 + i as u64, r));
+    }
+    for (i, r) in l2.iter().enumerate() {
+        v.files[2].push(mkfile(30 + i as u64, r));
+    }
+    let inputs0 = v.get_overlapping_compaction_inputs_strong(0, None..None);
+    let node = Arc::new(parking_lot::RwLock::new(Node::new(v)));
+    let mut cm = CompactionManifest::new(&options, 0);
+    cm.set_input_version(Arc::clone(&node));
+    cm.set_compaction_level_files(inputs0);
+    let _ = cm.finalize_compaction_inputs();
+    let a: Vec<u64> = cm.get_compaction_level_files().iter().map(|f| f.file_number()).collect();
+    let b: Vec<u64> = cm.get_parent_level_files().iter().map(|f| f.file_number()).collect();
+    core::mem::forget(cm);
+    core::mem::forget(node);
+    core::mem::forget(tc);
+    (a, b)
+}
+
+pub fn manifest_roundtrip_nodel(
+    wal: u64,
+    level: usize,
+    num: u64,
+    size: u64,
+    s: (&[u8], u64),
+    l: (&[u8], u64),
+) -> Option<(Option<u64>, usize, u64, u64, (Vec<u8>, u64), (Vec<u8>, u64))> {
+    let mut m = VersionChangeManifest::default();
+    m.wal_file_number = Some(wal);
+    m.add_file(level, num, size, InternalKey::new(s.0.to_vec(), s.1, Operation::Put)..InternalKey::new(l.0.to_vec(), l.1, Operation::Put));
+    let bytes: Vec<u8> = Vec::from(&m);
+    let r = match VersionChangeManifest::try_from(bytes.as_slice()) {
+        Ok(p) => {
+            let (lv, f) = &p.new_files[0];
+            let out = Some((
+                p.wal_file_number,
+                *lv,
+                f.file_number(),
+                f.get_file_size(),
+                (f.smallest_key().get_user_key().to_vec(), f.smallest_key().get_sequence_number()),
+                (f.largest_key().get_user_key().to_vec(), f.largest_key().get_sequence_number()),
+            ));
+            core::mem::forget(p);
+            out
+        }
+        Err(_) => None,
+    };
+    core::mem::forget(m);
+    core::mem::forget(bytes);
+    r
+}
+
+use crate::tables::block::BlockReader;
+
+/// Build a block with the real BlockBuilder from entries (user key byte, seq, is_put, value byte),
+/// parse it with the real BlockReader and run: seek(target) then `steps` x next/prev.
+/// Returns the (key, seq) under the cursor after each step (None = invalid).
+pub fn block_cursor(
+    restart_interval: usize,
+    entries: &[(u8, u64, bool, u8)],
+    target: (u8, u64),
+    forward: bool,
+    steps: usize,
+) -> Vec<Option<(u8, u64, u8)>> {
+    let mut b: crate::tables::BlockBuilderForVerif = crate::tables::new_block_builder_for_verif(restart_interval);
+    for e in entries {
+        b.add_entry(std::rc::Rc::new(InternalKey::new(vec![e.0], e.1, op(e.2))), &[e.3]);
+    }
+    let bytes = b.finalize();
+    let reader: BlockReader<InternalKey> = match BlockReader::new(bytes) {
+        Ok(r) => r,
+        Err(_) => return vec![],
+    };
+    let mut it = reader.iter();
+    let _ = it.seek(&InternalKey::new_for_seeking(vec![target.0], target.1));
+    let mut out = Vec::new();
+    let cur = |it: &crate::tables::block::BlockIter<InternalKey>| it.current().map(|(k, v)| (k.get_user_key()[0], k.get_sequence_number(), v[0]));
+    out.push(cur(&it));
+    let mut i = 0;
+    while i < steps {
+        if it.is_valid() {
+            if forward { it.next(); } else { it.prev(); }
+        }
+        out.push(cur(&it));
+        i += 1;
+    }
+    core::mem::forget(it);
+    core::mem::forget(reader);
+    core::mem::forget(b);
+    out
+}
+
+/// `Version::get_overlapping_compaction_inputs` alone. Files numbered by index.
+pub fn overlapping_inputs(options: DbOptions, level: usize, files: &[(u8, u8)], begin: Option<u8>, end: Option<u8>) -> Vec<u64> {
+    let tc = Arc::new(TableCache::new(options.clone(), 2));
+    let mut v = Version::new(options, &tc, 0, 0);
+    for (i, (s, l)) in files.iter().enumerate() {
+        let mut f = FileMetadata::new(i as u64);
+        f.set_smallest_key(Some(InternalKey::new(vec![*s], 5, Operation::Put)));
+        f.set_largest_key(Some(InternalKey::new(vec![*l], 5, Operation::Put)));
+        v.files[level].push(Arc::new(f));
+    }
+    let b = begin.map(|x| InternalKey::new(vec![x], 5, Operation::Put));
+    let e = end.map(|x| InternalKey::new(vec![x], 5, Operation::Put));
+    let out: Vec<u64> = v
+        .get_overlapping_compaction_inputs(level, b.as_ref()..e.as_ref())
+        .iter()
+        .map(|f| f.file_number())
+        .collect();
+    core::mem::forget(v);
+    core::mem::forget(tc);
+    out
+}
+
+/// Like `overlapping_inputs` but returns a bit mask of file indexes (no allocation of symbolic size).
+pub fn overlapping_inputs_mask(options: DbOptions, level: usize, files: &[(u8, u8)], begin: Option<u8>, end: Option<u8>) -> u8 {
+    let tc = Arc::new(TableCache::new(options.clone(), 2));
+    let mut v = Version::new(options, &tc, 0, 0);
+    for (i, (s, l)) in files.iter().enumerate() {
+        let mut f = FileMetadata::new(i as u64);
+        f.set_smallest_key(Some(InternalKey::new(vec![*s], 5, Operation::Put)));
+        f.set_largest_key(Some(InternalKey::new(vec![*l], 5, Operation::Put)));
+        v.files[level].push(Arc::new(f));
+    }
+    let b = begin.map(|x| InternalKey::new(vec![x], 5, Operation::Put));
+    let e = end.map(|x| InternalKey::new(vec![x], 5, Operation::Put));
+    let mut mask = 0u8;
+    {
+        let r = v.get_overlapping_compaction_inputs(level, b.as_ref()..e.as_ref());
+        let mut i = 0;
+        while i < r.len() {
+            mask |= 1u8 << (r[i].file_number() as u8);
+            i += 1;
+        }
+        core::mem::forget(r);
+    }
+    core::mem::forget(v);
+    core::mem::forget(tc);
+    mask
+}
+
+/// Encode a batch of two elements, decode, return decoded (start seq, [(is_put, key byte, value byte or 0)]).
+pub fn batch_roundtrip(start: u64, e0: (bool, u8, u8), e1: (bool, u8, u8), cut: usize) -> Option<(u64, (bool, u8, u8), (bool, u8, u8))> {
+    let mut b = crate::Batch::new();
+    for e in [e0, e1] {
+        if e.0 { b.add_put(vec![e.1], vec![e.2]); } else { b.add_delete(vec![e.1]); }
+    }
+    b.set_starting_seq_number(start);
+    let bytes: Vec<u8> = Vec::from(&b);
+    let view = if cut < bytes.len() { &bytes[..cut] } else { &bytes[..] };
+    let r = match crate::Batch::try_from(view) {
+        Ok(d) => {
+            if d.len() != 2 { None } else {
+                let mut it = d.iter();
+                let a = it.next().unwrap();
+                let c = it.next().unwrap();
+                let f = |x: &crate::BatchElement| (x.get_operation() == Operation::Put, x.get_key()[0], x.get_value().map_or(0, |v| v[0]));
+                let out = Some((d.get_starting_seq_number().unwrap(), f(a), f(c)));
+                core::mem::forget(d);
+                out
+            }
+        }
+        Err(_) => None,
+    };
+    core::mem::forget(bytes);
+    core::mem::forget(b);
+    r
+}
